@@ -105,6 +105,8 @@ def _get_index(name: str) -> IX.Index:
             files = C.K_EMPTY
         elif name == "BIG":
             files = C.big_corpus()
+        elif name == "LONGPAGE":
+            files = C.long_page_corpus()
         elif name.startswith("POOL"):
             files = C.pool_subset(int(name[4:]))
         else:
@@ -227,6 +229,10 @@ def _cases(ctx):
               ["desc", "widget", "'", False, True], ["kind", "o"], ["link", "wb", True], ["file", "w*", True]):
         cases.append(["BIG", [[a]], False])
     cases.append(["BIG", [[["desc", "Widget", '"', False, True], ["kind", "-"]]], False])
+    # a page with more than 1000 notes as the target of a link filter
+    for a in (["link", "long", False], ["link", "long", True], ["link", "other", False], ["kind", "o"]):
+        cases.append(["LONGPAGE", [[a]], False])
+    cases.append(["LONGPAGE", [[["link", "long", False], ["kind", "-"]]], False])
     if not ctx.quick:
         for mask in range(64):
             for a in A:
